@@ -337,6 +337,7 @@ let parse_bop name _ = match name with
   | "c" | "x" -> CanRequest   (* x = Execute(ctx, fn): CanRequest followed by fn or ErrFailFast *)
   | "s" -> OnSuccess | "f" -> OnFailure
   | "ws" -> WSuccess | "wf" -> WFailure | "wc" -> WCount
+  | "wP" -> WCount   (* preload: monitor-only scenarios (nomodel), never replayed *)
   | _ -> failwith ("unknown breaker op " ^ name)
 let show_log log =
   "L" ^ String.concat "," (List.map (fun (i, e) ->
